@@ -70,7 +70,7 @@ theorem step_high (c : Cfg) (s : St) (i : In) (h : s.state = 2) :
     (step c s i).count = s.count ∧ (step c s i).clk_out = 0 ∧ (step c s i).load_outs = s.load_outs := by
   simp [step, h]
 theorem step_end (c : Cfg) (s : St) (i : In) (h : s.state = 3) :
-    (step c s i).state = 0 ∧ (step c s i).target = s.target ∧ (step c s i).count = s.count ∧
+    (step c s i).state = 0 ∧ (step c s i).target = s.target ∧ (step c s i).count = 0 ∧
     (step c s i).clk_out = s.clk_out ∧ (step c s i).load_outs = 1 := by
   simp [step, h]
 theorem step_active (c : Cfg) (s : St) (i : In) :
@@ -89,7 +89,7 @@ theorem step_active (c : Cfg) (s : St) (i : In) :
 theorem train_from_low (c : Cfg) (T : Nat) (hT : T < 2^c.CW) :
     ∀ (n : Nat) (s : St) (js : List In), 1 ≤ n → s.state = 1 → s.target = T → s.count + n = T → s.load_outs = 0 →
       js.length = 2 * n + 1 →
-      outs c s js = Spec.Clk.pulseTrain n ∧ (run c s js).state = 0 ∧ (run c s js).count = T := by
+      outs c s js = Spec.Clk.pulseTrain n ∧ (run c s js).state = 0 ∧ (run c s js).count = 0 := by
   intro n
   induction n with
   | zero => intro s js h; omega
@@ -113,7 +113,7 @@ theorem train_from_low (c : Cfg) (T : Nat) (hT : T < 2^c.CW) :
           refine ⟨?_, ?_, ?_⟩
           · simp [outs, Spec.Clk.pulseTrain, sao, sal, sbo, sbl, sxo, sxl]
           · simpa [run] using sx
-          · simp only [run, List.foldl_cons, List.foldl_nil]; rw [sxc, sbc]; omega
+          · simp only [run, List.foldl_cons, List.foldl_nil]; exact sxc
       · have hk : ¬ (step c s a).count = (step c s a).target := by rw [sac, sat]; omega
         simp only [hk, if_false] at sb
         have hb := ih (step c (step c s a) b) rest (by omega) sb sbt (by rw [sbc]; omega) sbl hlen'
@@ -130,17 +130,17 @@ theorem activeHandshake_iff (s : St) (i : In) (ha : s.active < 2) (hv : i.tvalid
   have h2 : i.tvalid = 0 ∨ i.tvalid = 1 := by omega
   rcases h1 with h1 | h1 <;> rcases h2 with h2 | h2 <;> simp [activeHandshake, and2, buf, h1, h2]
 
-/-- `clk_counts_accepted_beat`: a beat of value T (1 ≤ T < 2^CW) transferred (VALID while active, hence READY) to an idle
-    Axi2Clk whose counter is clear produces — for EVERY behaviour of TDATA, TVALID, start, reset and done in the following
-    2T+1 cycles — exactly T pulses on clk_out (1,0 repeated T times) and then one load_outs pulse, and leaves the FSM idle. -/
-theorem clk_counts_accepted_beat (c : Cfg) (s : St) (i0 : In) (js : List In)
+/-- from an idle FSM whose counter is clear: a beat T (1 ≤ T < 2^CW) transferred (VALID while active, hence READY) produces —
+    for EVERY behaviour of TDATA, TVALID, start, reset and done in the following 2T+1 cycles — exactly T pulses on clk_out
+    (1,0 repeated T times) and then one load_outs pulse, and leaves the FSM idle with the counter clear again. -/
+theorem clk_counts_from_clear (c : Cfg) (s : St) (i0 : In) (js : List In)
     (hidle : s.state = 0) (hclear : s.count = 0) (hact : s.active = 1) (hvalid : i0.tvalid = 1)
     (hT1 : 1 ≤ i0.tdata) (hT2 : i0.tdata < 2^c.CW) (hlen : js.length = 2 * i0.tdata + 1) :
-    outs c (step c s i0) js = Spec.Clk.pulseTrain i0.tdata ∧ (run c (step c s i0) js).state = 0 := by
+    outs c (step c s i0) js = Spec.Clk.pulseTrain i0.tdata ∧ (run c (step c s i0) js).state = 0 ∧
+    (run c (step c s i0) js).count = 0 := by
   have hah : activeHandshake s i0 ≠ 0 := (activeHandshake_iff s i0 (by omega) (by omega)).2 ⟨hact, hvalid⟩
   obtain ⟨e1, e2, e3, _, e5⟩ := step_idle_acc c s i0 hidle hah
-  have h := train_from_low c i0.tdata hT2 i0.tdata (step c s i0) js hT1 e1 e2 (by rw [e3, hclear]; omega) e5 hlen
-  exact ⟨h.1, h.2.1⟩
+  exact train_from_low c i0.tdata hT2 i0.tdata (step c s i0) js hT1 e1 e2 (by rw [e3, hclear]; omega) e5 hlen
 
 /-- the number of cycles with clk_out = 1 in a pulse train is T -/
 theorem pulseTrain_count (T : Nat) : ((Spec.Clk.pulseTrain T).filter (fun p => p.1 == 1)).length = T ∧
@@ -164,30 +164,67 @@ structure Inv (s : St) : Prop where
   load : s.load_outs = 1 → s.state = 0
   loadb : s.load_outs < 2
   act : s.active < 2
+  idle0 : s.state = 0 → s.count = 0      -- an idle FSM has a clear counter (END clears it: fix bcd06db)
 
-theorem inv_init : Inv init := ⟨by decide, by decide, by decide, by decide, by decide⟩
+theorem inv_init : Inv init := ⟨by decide, by decide, by decide, by decide, by decide, by decide⟩
 
 theorem inv_step (c : Cfg) (s : St) (i : In) (h : Inv s) : Inv (step c s i) := by
-  obtain ⟨h1, h2, h3, h4, h5⟩ := h
+  obtain ⟨h1, h2, h3, h4, h5, h6⟩ := h
   have ha : (step c s i).active < 2 := by rw [step_active]; exact Nat.mod_lt _ (by decide)
   have hs : s.state = 0 ∨ s.state = 1 ∨ s.state = 2 ∨ s.state = 3 := by omega
   rcases hs with hs | hs | hs | hs
   · by_cases hah : activeHandshake s i = 0
-    · obtain ⟨e1, _, _, e4, e5⟩ := step_idle_noacc c s i hs hah
-      exact ⟨by omega, by simp [e1, e4], by omega, by omega, ha⟩
+    · obtain ⟨e1, _, e3, e4, e5⟩ := step_idle_noacc c s i hs hah
+      exact ⟨by omega, by simp [e1, e4], by omega, by omega, ha, fun _ => e3⟩
     · obtain ⟨e1, _, _, e4, e5⟩ := step_idle_acc c s i hs hah
-      exact ⟨by omega, by simp [e1, e4, h2, hs], by omega, by omega, ha⟩
+      exact ⟨by omega, by simp [e1, e4, h2, hs], by omega, by omega, ha, by omega⟩
   · obtain ⟨e1, _, _, e4, e5⟩ := step_low c s i hs
-    exact ⟨by omega, by simp [e1, e4], by intro h; rw [e5] at h; have := h3 h; omega, by omega, ha⟩
+    exact ⟨by omega, by simp [e1, e4], by intro h; rw [e5] at h; have := h3 h; omega, by omega, ha, by omega⟩
   · obtain ⟨e1, _, _, e4, e5⟩ := step_high c s i hs
-    refine ⟨by rw [e1]; split <;> omega, ?_, by intro h; rw [e5] at h; have := h3 h; omega, by omega, ha⟩
-    rw [e1, e4]; split <;> simp
-  · obtain ⟨e1, _, _, e4, e5⟩ := step_end c s i hs
-    exact ⟨by omega, by simp [e1, e4, h2, hs], fun _ => e1, by omega, ha⟩
+    refine ⟨by rw [e1]; split <;> omega, ?_, by intro h; rw [e5] at h; have := h3 h; omega, by omega, ha, ?_⟩
+    · rw [e1, e4]; split <;> simp
+    · rw [e1]; split <;> omega
+  · obtain ⟨e1, _, e3, e4, e5⟩ := step_end c s i hs
+    exact ⟨by omega, by simp [e1, e4, h2, hs], fun _ => e1, by omega, ha, fun _ => e3⟩
+
+theorem inv_run (c : Cfg) (is : List In) (s : St) (h : Inv s) : Inv (run c s is) := by
+  induction is generalizing s with
+  | nil => exact h
+  | cons i is ih => exact ih _ (inv_step c s i h)
+
+theorem run_append (c : Cfg) (s : St) (is js : List In) : run c s (is ++ js) = run c (run c s is) js := by
+  simp [run, List.foldl_append]
+
+/-- `clk_counts_accepted_beat`: after EVERY schedule `is`, if the FSM is idle and the adapter active, a beat T (1 ≤ T < 2^CW)
+    offered with VALID is transferred and produces — for EVERY behaviour of TDATA, TVALID, start, reset and done in the following
+    2T+1 cycles — exactly T pulses on clk_out and then one load_outs pulse.  No hypothesis on the counter: an idle FSM always
+    has it clear, also in the cycle right after a load_outs pulse. -/
+theorem clk_counts_accepted_beat (c : Cfg) (is : List In) (i0 : In) (js : List In)
+    (hidle : (run c init is).state = 0) (hact : (run c init is).active = 1) (hvalid : i0.tvalid = 1)
+    (hT1 : 1 ≤ i0.tdata) (hT2 : i0.tdata < 2^c.CW) (hlen : js.length = 2 * i0.tdata + 1) :
+    outs c (run c init (is ++ [i0])) js = Spec.Clk.pulseTrain i0.tdata ∧ (run c init (is ++ [i0] ++ js)).state = 0 := by
+  have hinv := inv_run c is init inv_init
+  have h := clk_counts_from_clear c (run c init is) i0 js hidle (hinv.idle0 hidle) hact hvalid hT1 hT2 hlen
+  have e : run c init (is ++ [i0]) = step c (run c init is) i0 := by simp [run, List.foldl_append]
+  have e2 : run c init (is ++ [i0] ++ js) = run c (step c (run c init is) i0) js := by rw [run_append, e]
+  rw [e, e2]
+  exact ⟨h.1, h.2.1⟩
+
+/-- back-to-back, explicitly: beat T1, its 2·T1+1 cycles (ending with the load_outs pulse), then — in the very next cycle —
+    beat T2 (adapter still active): exactly T2 pulses follow, then load_outs.  (Before fix bcd06db: T2 − T1 pulses.) -/
+theorem clk_back_to_back (c : Cfg) (is : List In) (i1 i2 : In) (js1 js2 : List In)
+    (hidle : (run c init is).state = 0) (hact : (run c init is).active = 1)
+    (hv1 : i1.tvalid = 1) (h11 : 1 ≤ i1.tdata) (h12 : i1.tdata < 2^c.CW) (hl1 : js1.length = 2 * i1.tdata + 1)
+    (hact2 : (run c init (is ++ [i1] ++ js1)).active = 1)
+    (hv2 : i2.tvalid = 1) (h21 : 1 ≤ i2.tdata) (h22 : i2.tdata < 2^c.CW) (hl2 : js2.length = 2 * i2.tdata + 1) :
+    outs c (run c init (is ++ [i1])) js1 = Spec.Clk.pulseTrain i1.tdata ∧
+    outs c (run c init (is ++ [i1] ++ js1 ++ [i2])) js2 = Spec.Clk.pulseTrain i2.tdata := by
+  have h1 := clk_counts_accepted_beat c is i1 js1 hidle hact hv1 h11 h12 hl1
+  exact ⟨h1.1, (clk_counts_accepted_beat c (is ++ [i1] ++ js1) i2 js2 h1.2 hact2 hv2 h21 h22 hl2).1⟩
 
 /-- what the monitor's phase says about the FSM -/
 def PhaseRel (c : Cfg) (s : St) : Spec.Clk.Phase → Prop
-  | .idle fresh => s.state = 0 ∧ (fresh = true → s.count = 0)
+  | .idle => s.state = 0
   | .high T k => s.state = 1 ∧ s.target = T ∧ s.count = k ∧ k < T ∧ T < 2^c.CW ∧ s.load_outs = 0
   | .low T k => s.state = 2 ∧ s.target = T ∧ s.count = k ∧ 1 ≤ k ∧ k ≤ T ∧ T < 2^c.CW ∧ s.load_outs = 0
   | .fin => s.state = 3 ∧ s.load_outs = 0
@@ -202,13 +239,14 @@ theorem accept_iff (s : St) (i : In) (h : Inv s) (hi : WfI i) :
   simp [Spec.Clk.accept, obs_tready s h.act, and_comm]
 
 theorem rel_step (c : Cfg) (s : St) (i : In) (m : Spec.Clk.Mon) (h : Inv s) (hi : WfI i) (hp : PhaseRel c s m.phase) :
-    PhaseRel c (step c s i) (Spec.Clk.monStep false c.CW m (obs s) i (obs (step c s i))).phase ∧
+    PhaseRel c (step c s i) (Spec.Clk.monStep c.CW m (obs s) i (obs (step c s i))).phase ∧
     (∀ e, Spec.Clk.expect m = some e → (step c s i).clk_out = e.1 ∧ (step c s i).load_outs = e.2) := by
   have h' := inv_step c s i h
-  obtain ⟨ph, st⟩ := m
+  obtain ⟨ph⟩ := m
   cases ph with
-  | idle fresh =>
-    obtain ⟨hs, hf⟩ := hp
+  | idle =>
+    have hs : s.state = 0 := hp
+    have hcnt := h.idle0 hs
     have hc0 : s.clk_out = 0 := by rw [h.clk]; simp [hs]
     by_cases hah : activeHandshake s i = 0
     · have hacc : Spec.Clk.accept (obs s) i = false := by
@@ -216,7 +254,7 @@ theorem rel_step (c : Cfg) (s : St) (i : In) (m : Spec.Clk.Mon) (h : Inv s) (hi 
         · rfl
         · exact absurd hah ((accept_iff s i h hi).1 hb)
       obtain ⟨e1, _, e3, e4, e5⟩ := step_idle_noacc c s i hs hah
-      refine ⟨by simp [Spec.Clk.monStep, hacc, PhaseRel, e1, e3], ?_⟩
+      refine ⟨by simp [Spec.Clk.monStep, hacc, PhaseRel, e1], ?_⟩
       intro e he; simp [Spec.Clk.expect] at he; subst he; exact ⟨e4, e5⟩
     · have hacc : Spec.Clk.accept (obs s) i = true := (accept_iff s i h hi).2 hah
       obtain ⟨e1, e2, e3, e4, e5⟩ := step_idle_acc c s i hs hah
@@ -225,9 +263,7 @@ theorem rel_step (c : Cfg) (s : St) (i : In) (m : Spec.Clk.Mon) (h : Inv s) (hi 
         by_cases hr : (decide (1 ≤ i.tdata) && decide (i.tdata < 2^c.CW)) = true
         · rw [if_pos hr]
           simp only [Bool.and_eq_true, decide_eq_true_eq] at hr
-          cases fresh with
-          | true => simp [PhaseRel, e1, e2, e3, e5, hf rfl, hr.1, hr.2]; omega
-          | false => simp [PhaseRel]
+          simp [PhaseRel, e1, e2, e3, e5, hcnt, hr.2]; omega
         · rw [if_neg hr]; simp [PhaseRel]
       · intro e he; simp [Spec.Clk.expect] at he; subst he; exact ⟨by rw [e4, hc0], e5⟩
   | high T k =>
@@ -262,12 +298,12 @@ theorem rel_step (c : Cfg) (s : St) (i : In) (m : Spec.Clk.Mon) (h : Inv s) (hi 
     · rw [if_neg hl]; simp [PhaseRel]
 
 theorem clauses_ok (c : Cfg) (s : St) (i : In) (m : Spec.Clk.Mon) (h : Inv s) (hi : WfI i) (hp : PhaseRel c s m.phase) :
-    ∀ p ∈ Spec.Clk.clauses m (obs s) i (obs (step c s i)), p.2 = true := by
+    ∀ p ∈ Spec.Clk.clauses false m (obs s) i (obs (step c s i)), p.2 = true := by
   have h' := inv_step c s i h
   have hr := (rel_step c s i m h hi hp).2
   intro p hp'
   simp only [Spec.Clk.clauses, List.mem_cons, List.mem_nil_iff, or_false] at hp'
-  rcases hp' with rfl | rfl | rfl | rfl
+  rcases hp' with rfl | rfl | rfl | rfl | rfl
   · have e1 := obs_tready s h.act
     have e2 := obs_tready (step c s i) h'.act
     simp only [obs] at e1 e2
@@ -285,6 +321,7 @@ theorem clauses_ok (c : Cfg) (s : St) (i : In) (m : Spec.Clk.Mon) (h : Inv s) (h
     cases he : Spec.Clk.expect m with
     | none => rfl
     | some e => simp only [beq_iff_eq]; exact (hr e he).2
+  · simp
 
 def WfIs (is : List In) : Prop := ∀ i ∈ is, WfI i
 
@@ -300,28 +337,41 @@ theorem check_ok (c : Cfg) (is : List In) (hw : WfIs is) (s : St) (m : Spec.Clk.
     exact ih (fun j hj => hw j (by simp [hj])) _ _ _ (inv_step c s i h) (rel_step c s i m h hi hp).1
 
 /-- the executable oracle `Spec.Clk.check` (tolerant mode) — the one the harness runs on the traces of the REAL Axi2Clk —
-    accepts the trace of the model under EVERY schedule: every beat of value 1 ≤ T < 2^CW accepted while idle (and not in the
+    accepts the trace of the model under EVERY schedule: every beat of value 1 ≤ T < 2^CW accepted while idle (also in the
     cycle right after a load_outs pulse) is followed by exactly T clk_out pulses and then the load_outs pulse, whatever TDATA
     and the control pulses do meanwhile; idle cycles keep both outputs low; READY = active. -/
 theorem clk_oracle_accepts_model (c : Cfg) (is : List In) (hw : WfIs is) :
     Spec.Clk.check false c.CW (obs init) (trace c init is) = .ok :=
-  check_ok c is hw init Spec.Clk.Mon.init 0 inv_init ⟨rfl, fun _ => rfl⟩
+  check_ok c is hw init Spec.Clk.Mon.init 0 inv_init rfl
 
 theorem clk_oracle_accepts_generated (c : Cfg) (is : List In) (hw : WfIs is) :
     Spec.Clk.check false c.CW (obs init) (traceG c init is) = .ok := by
   rw [traceG_eq]; exact clk_oracle_accepts_model c is hw
 
-/-- genuine defect (strict mode refuted): a beat accepted in the first idle cycle after a load_outs pulse starts counting from
-    the previous target (END does not clear clk_count): beat 2, then beat 5 accepted right after END → 3 pulses instead of 5.
-    Also shown: TDATA changing during the count (5, then 9) does not matter, and beats offered while counting are dropped
-    although READY is up. -/
-theorem clk_stale_count_counterexample :
+/-- regression example (the witness of the former finding C16-axi2clk-stale-count, fixed by bcd06db, completed to the end of
+    the second run): beat 2, then beat 5 accepted in the cycle right after the load_outs pulse → 2 pulses, then 5 pulses.
+    TDATA changing during the count (5, then 9) does not matter. -/
+theorem clk_back_to_back_example :
     let c : Cfg := ⟨64⟩
     let is : List In := [⟨1,0,0,0,0⟩, ⟨0,0,0,1,2⟩, ⟨0,0,0,1,5⟩, ⟨0,0,0,1,5⟩, ⟨0,0,0,1,5⟩, ⟨0,0,0,1,5⟩, ⟨0,0,0,1,5⟩,
-                         ⟨0,0,0,1,5⟩, ⟨0,0,0,0,9⟩, ⟨0,0,0,0,9⟩, ⟨0,0,0,0,9⟩, ⟨0,0,0,0,9⟩, ⟨0,0,0,0,9⟩, ⟨0,0,0,0,9⟩, ⟨0,0,0,0,9⟩]
-    (outs c init is).map Prod.fst = [0,0, 1,0,1,0, 0, 0, 1,0,1,0,1,0, 0] ∧      -- 2 pulses, then only 3 for the beat 5
-    (outs c init is).map Prod.snd = [0,0, 0,0,0,0, 1, 0, 0,0,0,0,0,0, 1] ∧
-    (Spec.Clk.check true 64 (obs init) (trace c init is)).isFail = true ∧
+                         ⟨0,0,0,1,5⟩, ⟨0,0,0,0,9⟩, ⟨0,0,0,0,9⟩, ⟨0,0,0,0,9⟩, ⟨0,0,0,0,9⟩, ⟨0,0,0,0,9⟩, ⟨0,0,0,0,9⟩, ⟨0,0,0,0,9⟩,
+                         ⟨0,0,0,0,9⟩, ⟨0,0,0,0,9⟩, ⟨0,0,0,0,9⟩, ⟨0,0,0,0,9⟩]
+    (outs c init is).map Prod.fst = [0,0, 1,0,1,0, 0, 0, 1,0,1,0,1,0,1,0,1,0, 0] ∧
+    (outs c init is).map Prod.snd = [0,0, 0,0,0,0, 1, 0, 0,0,0,0,0,0,0,0,0,0, 1] ∧
+    Spec.Clk.check false 64 (obs init) (trace c init is) = .ok := by
+  decide
+
+/-- genuine defect (strict mode refuted), finding C16-axi2clk-accepts-while-counting: READY = active also while the FSM counts,
+    so a beat offered then is ACCEPTED on the stream (VALID ∧ READY) and silently dropped: beat 2 accepted, beat 7 accepted one
+    cycle later (READY is up) — 2 pulses, load_outs, and nothing for the 7. -/
+theorem clk_accepts_while_counting_counterexample :
+    let c : Cfg := ⟨64⟩
+    let is : List In := [⟨1,0,0,0,0⟩, ⟨0,0,0,1,2⟩, ⟨0,0,0,1,7⟩, ⟨0,0,0,0,0⟩, ⟨0,0,0,0,0⟩, ⟨0,0,0,0,0⟩, ⟨0,0,0,0,0⟩, ⟨0,0,0,0,0⟩,
+                         ⟨0,0,0,0,0⟩, ⟨0,0,0,0,0⟩]
+    (obs (run c init (is.take 2))).tready = 1 ∧                       -- READY is up while the FSM is in RUNNING_LOW
+    (outs c init is).map Prod.fst = [0,0, 1,0,1,0, 0, 0,0,0] ∧        -- only the 2 pulses of the first beat
+    (outs c init is).map Prod.snd = [0,0, 0,0,0,0, 1, 0,0,0] ∧
+    Spec.Clk.check true 64 (obs init) (trace c init is) = .fail 2 "accepted_beat_is_counted" false ∧
     Spec.Clk.check false 64 (obs init) (trace c init is) = .ok := by
   decide
 
